@@ -513,12 +513,17 @@ func (c *checkCtx) runSchedCold(prop, build string, firstPlan, nPlans, chunk int
 		if len(p.Objects) == 0 {
 			return true
 		}
-		if len(p.Objects) != 1 || len(p.Tasks) < 2 {
+		if len(p.Objects) < 1 || len(p.Tasks) < 2 {
 			return false
+		}
+		for i, o := range p.Objects {
+			if i > 0 && o.CopyOf != 1 {
+				return false // (by-value copies of the one object count as that object)
+			}
 		}
 		for _, t := range p.Tasks {
 			for _, o := range t {
-				if o.Kind != "create" && (o.Obj != 0 || (o.Kind != "eval" && o.Kind != "exec")) {
+				if o.Kind != "create" && o.Kind != "eval" && o.Kind != "exec" {
 					return false
 				}
 			}
